@@ -1,8 +1,8 @@
 #!/bin/bash
 # tools/seed_collect.sh <Cxx> [n]: copy a sub-agent's deliverables (scratch worktree /tmp/seed/Cxx/SEED) to /verif/seeded/Cxx-n/
-P=$1; N=${2:-1}; S=/tmp/seed/$P/SEED; D=/verif/seeded/$P-$N
+P=$1; N=${2:-1}; B=${SEEDBASE:-/tmp/seed}; S=$B/$P/SEED; D=/verif/seeded/$P-$N
 mkdir -p $D
-git -C /tmp/seed/$P diff -- Python > $D/patch.diff
+git -C $B/$P diff -- Python > $D/patch.diff
 cp $S/demo.py $D/demo.py
 cp $S/NOTES.md $D/NOTES.md 2>/dev/null
 [ -f $D/meta.json ] || echo "{\"property\": \"$P\", \"origin\": \"independent sub-agent given only the property text and a scratch worktree\"}" > $D/meta.json
